@@ -401,4 +401,26 @@ theorem pp_run (s : Conn) (h : PP s) (ops : List Op) (hex : Exclusive s ops) : P
     | connReset => exact ih _ (pp_step s h _ (fun _ hh => by cases hh)) hex
     | setBase v => exact ih _ (pp_step s h _ (fun _ hh => by cases hh)) hex
 
+/-- executable form of `Exclusive` -/
+def exclusiveB (s : Conn) : List Op → Bool
+  | [] => true
+  | .newStream o :: r => s.table.isEmpty && exclusiveB (step s (.newStream o)) r
+  | .reply id tok :: r => exclusiveB (step s (.reply id tok)) r
+  | .resetStream w :: r => exclusiveB (step s (.resetStream w)) r
+  | .connReset :: r => exclusiveB (step s .connReset) r
+  | .setBase v :: r => exclusiveB (step s (.setBase v)) r
+
+theorem exclusive_of_B (s : Conn) (ops : List Op) (h : exclusiveB s ops = true) : Exclusive s ops := by
+  induction ops generalizing s with
+  | nil => trivial
+  | cons op r ih =>
+    cases op with
+    | newStream o =>
+      simp only [exclusiveB, Bool.and_eq_true, List.isEmpty_iff] at h
+      exact ⟨h.1, ih _ h.2⟩
+    | reply id tok => exact ih _ h
+    | resetStream w => exact ih _ h
+    | connReset => exact ih _ h
+    | setBase v => exact ih _ h
+
 end MosnVerif.Model.StreamTable
